@@ -1,4 +1,4 @@
-use crate::{InputTrait, Parser, default_parse_error};
+use crate::{InputTrait, Parser, ParserErrorTrait, default_parse_error};
 
 pub struct FilterParser<P, F> {
     parser: P,
@@ -22,7 +22,17 @@ where
     type Error = P::Error;
     fn parse(&mut self, input: &mut I) -> Result<Self::Output, Self::Error> {
         let original_input = input.get_position();
-        let value = self.parser.parse(input)?;
+        let value = match self.parser.parse(input) {
+            Ok(value) => value,
+            Err(err) => {
+                if err.is_soft() {
+                    // a soft failure leaves the input where it started,
+                    // also when the parser does not undo it itself
+                    input.set_position(original_input);
+                }
+                return Err(err);
+            }
+        };
         if (self.predicate)(&value) {
             Ok(value)
         } else {
